@@ -47,7 +47,7 @@ def to_source(case):
         v = int(t)
         k = SPELL[0].randrange(9) if SPELL[0] is not None else 0
         if v < 0:
-            return [t, "(%s)" % t, "0%s" % t, "-(%d)" % -v, t, t, "-$%x" % -v, "(0-%d)" % -v, t][k]
+            return [t, "(%s)" % t, "0%s" % t, "-(%d)" % -v, "~%d" % (-v - 1), "~0x%x" % (-v - 1), "-$%x" % -v, "(0-%d)" % -v, t][k]
         return [t, "$%x" % v, "0x%X" % v, "0b" + bin(v)[2:], "(%d)" % v, "(%d+%d)" % (v // 2, v - v // 2), "~(~%d)" % v, "-(-%d)" % v, "%d*1" % v][k]
 
     def conv(o):
